@@ -8,8 +8,8 @@ CLAIMED = {
    text='Every obligation generated from the current nfc/llcp/pdu.py (encode/__len__ against an independent '
         'frame-format spec, decode of the spec encoding, decode of arbitrary byte strings: raises only DecodeError, '
         'agrees with the independent reading, loop variants, and reads confined to the PDU\'s own octets) is '
-        'discharged by z3 for all field values and all byte strings; list-valued PDUs (SNL, AGF round trip) are '
-        'bounded stand-ins and not counted.',
+        'discharged by z3 for all field values and all byte strings; list-valued PDUs (SNL, AGF round trip with two '
+        'sub-PDUs and with one sub-PDU of every judgeable type and any DSAP/SSAP) are bounded stand-ins and not counted.',
    design_ref='DESIGN.md Part A sections A.4 (this property), A.8',
    note='Trusted: pyvc encoding of Python semantics (cross-checked against CPython on every run), z3, '
         'specs/llcp_frames.py as the reading of LLCP 1.3. TLV-loop decoders: field agreement for arbitrary byte '
@@ -39,10 +39,15 @@ CLAIMED = {
         'call raises IOError, raises Chipset.Error for a well-framed error frame, or returns exactly the payload an '
         'independent validator extracts. acr122 ccid_xfr_block/command and rcs380 Frame likewise. The eight shift '
         'steps of calculate_crc equal the ISO/IEC 14443-3 Annex B byte step for all 2^24 (register, octet) pairs '
-        '(bit-vector query). add/check_crc_a/b end-to-end are bounded stand-ins (<=1 octet) and not counted.',
+        '(bit-vector query). add/check_crc_a/b end-to-end are bounded stand-ins (<=1 octet) and not counted. '
+        'pn532.init() on a serial link: every hand-built frame written during the bring-up (GetFirmwareVersion, '
+        'SAMConfiguration, SetSerialBaudrate at every speed) is an ACK or a well-formed host frame, whatever stty, the '
+        'device tree and the chip answer (interface obligation of the transport model at each write).',
    design_ref='DESIGN.md Part A sections A.4 (this property), A.8',
    note='Transport is an environment model (arbitrary bytes or IOError per read). Log-call arguments are not '
-        'evaluated (cmd_code restricted to the codes in Chipset.CMD). The fold of the CRC step over a message is '
+        'evaluated (cmd_code restricted to the codes in Chipset.CMD). The pn532.init contract models open() and '
+        'os.system() as arbitrary, takes the Chipset/Device constructors as assumed contracts and is not replayable '
+        'natively. The fold of the CRC step over a message is '
         'argued on paper (both sides are left folds of step functions proved equal). _tt2_send_cmd_recv_rsp CRC '
         'rejection and termination of the ACK-skipping loop are not covered.',
    technique='contract-based deductive verification: AST->z3 VC generation (pyvc), bit-vector mode for the CRC'),
@@ -55,7 +60,9 @@ CLAIMED = {
         'connect and __exit__, for all option/callback outcomes. self.device is havocked to None at every lock '
         'acquisition (another thread may have closed it), so a missing None check fails too; re-acquiring the '
         'non-reentrant lock is an obligation (no self-deadlock). The driver\'s close() may fail with IOError: the '
-        'frontend still drops the reference.',
+        'frontend still drops the reference. Driver side: the LED/buzzer, mute and close methods of the acr122, pn53x, '
+        'rcs380 and rcs956 drivers and the pn532/rcs380 exchange paths run in the caller\'s thread and start no thread '
+        'or timer of their own (obligation starts-no-thread).',
    design_ref='DESIGN.md Part A sections A.4 (this property), A.8',
    note='Meta-argument (trusted): if every driver call is made with the one frontend lock held, driver calls from '
         'different threads cannot overlap; threads are not executed. nfc.tag.activate/emulate, device.connect and the '
@@ -71,7 +78,9 @@ CLAIMED = {
         'entry unchanged (frame), closing the last socket frees the address, a UI PDU is delivered only to the socket '
         'bound at its DSAP with payload and source intact, connect-by-name reaches the socket bound under the name or '
         'answers DM; the service discovery responder answers a lookup with the address bound under the name, or 0 when '
-        'nothing is bound under it (well-known name or not).',
+        'nothing is bound under it (well-known name or not), for any number of lookups in one SNL PDU (loop invariant); '
+        'a connect() refused with DM leaves the socket unconnected, so that a retry by name reaches the socket bound '
+        'under it then.',
    design_ref='DESIGN.md Part A sections A.4 (this property), A.8',
    note='One socket per service access point in the table shape; service-name syntax check (regular expression) is an '
         'uninterpreted predicate; resolve() (blocking) and cross-device delivery are not covered (the channel is C10/C11); '
@@ -195,12 +204,13 @@ CLAIMED = {
    category='proof',
    text='NTAG21x: _authenticate sends PWD_AUTH with the first four key octets and returns true exactly when PWD and '
         'PACK of a tag model match the six derived key octets (ValueError for 1..5 octet passwords); '
-        '_protect_with_password followed by _authenticate(password2) is true exactly when both passwords derive the '
+        'protect(password) - the public nfc.tag.Tag.protect - followed by _authenticate(password2) is true exactly when both passwords derive the '
         'same key, for all passwords, protect_from and read_protect values; a refused PWD_AUTH is silence or a 1-octet '
         'NAK. FeliCa Lite (modulo an idealised, '
         'collision-free MAC and 3DES): _authenticate returns true exactly when the tag model holds the derived card '
         'key (challenge octet order, session key derivation, MAC over the ID block with RC1 as IV), sets the session '
-        'key only then; read_with_mac returns data only when the MAC field of this response equals the MAC of its data '
+        'key only then, and the challenge written to the tag is the os.urandom draw of this very call (a recorded '
+        'session can not be replayed); read_with_mac returns data only when the MAC field of this response equals the MAC of its data '
         'field under the session key, for arbitrary (attacker chosen) responses; the real read command returns exactly '
         '16 octets per requested block or raises (the MAC code slices the response from its end).',
    design_ref='DESIGN.md Part A sections A.4 (this property), A.8',
